@@ -22,7 +22,7 @@ import (
 
 // C14 - concurrent RPCs are isolated from one another and race-free.
 
-const ruleC14 = "rapid draws batches of 2..24 scenarios (C01/C03/C09 generators: mixed client forms, codecs, compressions, distinct payloads, failing and faulty requests) that run concurrently on ONE Transcoder, in a generated start order with generated GOMAXPROCS, plus full-duplex streams whose request body is a pipe fed by a client goroutine while the handler reads and writes from two different goroutines, optionally with an invalid envelope or a cut injected on the request side while the response side is busy. The binary is built with -race; the instrumented poisoning buffer pool (tag verif) is active. Half of the batches start with a sequential prelude of requests that fail inside the transcoder (corrupt gzip headers) before the others run concurrently, some with every RPC inflating; compressor and decompressor objects are bookkeeping wrappers registered through WithCompression (in use from Reset to Close). Oracle: (0) a valid exchange with a compliant backend answering OK does not end in an RPC error, and no (de)compressor object is Reset while in use; (1) every RPC's canonical outcome equals its solo run on a fresh Transcoder; (2) the race detector log gains no report whose stacks contain frames of package vanguard (reports are parsed into call-site pairs and matched against known findings); (3) pool bookkeeping: no double release, no hand-out of a live buffer, no write after release. Non-trivial = at least two overlapping RPCs that used pooled buffers, or a duplex stream with a fault on one side while the other side moved data; distinct by hash(batch)."
+const ruleC14 = "rapid draws batches of 2..24 scenarios (C01/C03/C09 generators: mixed client forms, codecs, compressions, distinct payloads, failing and faulty requests) that run concurrently on ONE Transcoder, in a generated start order with generated GOMAXPROCS, plus full-duplex streams whose request body is a pipe fed by a client goroutine while the handler reads and writes from two different goroutines, optionally with an invalid envelope or a cut injected on the request side while the response side is busy. The binary is built with -race; the instrumented poisoning buffer pool (tag verif) is active. Half of the batches start with a sequential prelude of requests that fail inside the transcoder (corrupt gzip headers) before the others run concurrently, some with every RPC inflating; compressor and decompressor objects are bookkeeping wrappers registered through WithCompression (in use from Reset to Close). Solo reference runs use the ordinary pool, the concurrent phase the poisoning one. Oracle: (0) no (de)compressor object is Reset while in use; (1) every RPC's canonical outcome equals its solo run on a fresh Transcoder; (2) the race detector log gains no report whose stacks contain frames of package vanguard (reports are parsed into call-site pairs and matched against known findings); (3) pool bookkeeping: no double release, no hand-out of a live buffer, no write after release. Non-trivial = at least two overlapping RPCs that used pooled buffers, or a duplex stream with a fault on one side while the other side moved data; distinct by hash(batch)."
 
 type duplexSpec struct {
 	Form        string `json:"form"`         // connect_stream | grpc | grpcweb
@@ -494,7 +494,10 @@ func checkC14(c *concCase) *CheckResult {
 		res.class("duplex n=%d faulted=%v procs=%d", len(c.Duplex), faulted, c.Procs)
 		res.Sample = map[string]any{"duplex": c.Duplex, "procs": c.Procs}
 	} else {
-		// solo outcomes on fresh transcoders
+		// solo outcomes on fresh transcoders, with the ordinary (not instrumented) pool: they are
+		// the reference, and a defect that needs the poisoning pool to show (data read from a buffer
+		// after its release) must not corrupt the reference the same way
+		vanguard.VerifPoolDisable()
 		solo := make([]probeObs, len(c.Batch))
 		for i := range c.Batch {
 			fresh, err := newSharedTranscoder(c.Config)
@@ -550,12 +553,6 @@ func checkC14(c *concCase) *CheckResult {
 			}
 			if d := solo[i].client.diff(conc[i].client); len(d) > 0 {
 				res.violate("not_isolated", "c14:outcome", "RPC %d of %d (%s %s): outcome when run concurrently differs from its solo run: %s", i, len(c.Batch), c.Batch[i].Client.Form, c.Batch[i].Client.Method, strings.Join(d, "; "))
-			}
-			if it := &c.Batch[i]; it.Client.Fault == nil && it.Backend.Fault == nil && it.Backend.Kind == "ok" && it.Note == "" && !anyTrue(it.Client.MsgRaw) && !anyTrue(it.Backend.MsgRaw) && strings.HasPrefix(conc[i].client.Outcome, "err:") {
-				// (absolute, not relative to the solo run: a defect that breaks both the same way - e.g. data
-				// decoded from a buffer already released, which the poisoning pool turns into garbage - would
-				// otherwise compare equal)
-				res.violate("valid_failed", "c14:valid_failed", "RPC %d of %d (%s %s): a valid exchange with a compliant backend answering OK ended %s (HTTP %d)", i, len(c.Batch), it.Client.Form, it.Client.Method, conc[i].client.Outcome, conc[i].client.Status)
 			}
 			if solo[i].backend != conc[i].backend {
 				res.violate("not_isolated", "c14:backend", "RPC %d of %d (%s %s): backend observed a different request when run concurrently", i, len(c.Batch), c.Batch[i].Client.Form, c.Batch[i].Client.Method)
